@@ -491,3 +491,20 @@ def _replay_ensemble_parallel(model, contract):
 
 
 CONTRACTS["results:Ensemble.run_sims#in_parallel"]["replay_hook"] = _replay_ensemble_parallel
+
+
+# ---- Covout.sample, the visible interaction text (C16: "objects behave as their visible data"; C17): after sampling, the text of the explicit interaction outcomes -- what a
+# written program book carries -- is the perturbed outcome, i.e. the cached value PLUS the baseline (the cache is relative to the baseline), to four decimals
+def _covout_env_concrete(it):
+    import numpy as np
+    from pyvc.interp import PyObjV
+    from pyvc import source
+
+    fields = {"sigma": 0.5, "progs": {"p0": 0.5, "p1": 0.625}, "baseline": 0.25, "_interactions": {frozenset(["p0", "p1"]): 0.5}, "imp_interaction": "p0+p1=0.75"}
+    return {"self": PyObjV("Covout", source.load("programs"), fields), "DRAW": np.array([0.25]), "REFRESHED": False}
+
+
+CONTRACTS["programs:Covout.sample#visible_interaction_text"] = dict(
+    schema=schema, make_env=_covout_env_concrete, call_stubs={"np.random.randn": "DRAW", "self.update_outcomes": _mark_refreshed},
+    ensures=[("C16+C17.the_interaction_text_is_the_perturbed_outcome_cached_value_plus_baseline", "self._interactions[frozenset(['p0', 'p1'])] == 0.625 and self.imp_interaction in ('p0+p1=0.8750', 'p1+p0=0.8750')")],
+    raises={}, defined_props=["C16", "C17"], raises_props=["C17"])
